@@ -173,44 +173,58 @@ class Facts:
                     for d in self.disj)
 
 
+def _problem_atoms(e):
+    """atoms that keep e from being trivially non-negative"""
+    out = []
+    for a, v in e.t.items():
+        if v < 0 or not atom_nonneg(a):
+            out.append((a, v))
+    return out
+
+
+MAX_DEPTH = 6
+
+
 def _prove(goal, facts):
     if trivially_ge0(goal):
         return True
-    # only facts sharing an atom with the goal or with another relevant fact matter
-    rel = _relevant(goal, facts)
-    # infeasible context?
-    for n in range(1, min(MAX_COMBO, len(rel)) + 1):
-        for combo in itertools.combinations(rel, n):
-            s = Aff()
-            for f in combo:
-                s = s + f
-            if trivially_ge0(goal - s):
-                return True
-            if trivially_ge0(Aff.const(-1) - s):      # facts contradict each other
-                return True
-    # coefficient 2 on one fact
-    for f in rel:
-        for n in range(0, min(2, len(rel)) + 1):
-            for combo in itertools.combinations(rel, n):
-                s = f * 2
-                for g in combo:
-                    s = s + g
-                if trivially_ge0(goal - s):
-                    return True
-    return False
+    facts = [f for f in facts if f.t or f.c < 0]
+    seen = set()
 
+    def dfs(r, depth, used):
+        if trivially_ge0(r):
+            return True
+        if depth == 0:
+            return False
+        k = (r.key(), depth)
+        if k in seen:
+            return False
+        seen.add(k)
+        probs = _problem_atoms(r)
+        if not probs:
+            # only the constant is negative: look for contradicting facts (f <= -1 overall)
+            probs = []
+        # pick the first problematic atom and try every fact that reduces it
+        cands = []
+        if probs:
+            a, v = probs[0]
+            for i, f in enumerate(facts):
+                if used.count(i) >= 2:
+                    continue
+                fv = f.t.get(a, 0)
+                if fv != 0 and (fv > 0) == (v > 0):
+                    cands.append(i)
+        else:
+            for i, f in enumerate(facts):
+                if used.count(i) < 1 and f.c < 0:
+                    cands.append(i)
+        for i in cands:
+            if dfs(r - facts[i], depth - 1, used + [i]):
+                return True
+        return False
 
-def _relevant(goal, facts):
-    atoms = set(goal.t)
-    rel = []
-    changed = True
-    rest = list(facts)
-    while changed:
-        changed = False
-        for f in list(rest):
-            if set(f.t) & atoms or not f.t:
-                rel.append(f)
-                rest.remove(f)
-                atoms |= set(f.t)
-                changed = True
-    return rel[:14]
+    if dfs(goal, MAX_DEPTH, []):
+        return True
+    # contradiction among the facts makes everything provable
+    seen.clear()
+    return dfs(Aff.const(-1), MAX_DEPTH, [])
